@@ -101,6 +101,11 @@ def alternatives(e, table, aborts_table):
             for res in ('Err', 'None'):
                 v = dict(e); v['kind'] = 'err'; v['fact'] = ('is', a[1], res)
                 yield table, v
+            # a.checked_sub(b).unwrap() / .expect(..)  <->  a - b (panicking operator)
+            if isinstance(a[1], tuple) and a[1][0] == 'rcall' and a[1][1] in ('checked_sub', 'checked_add') and len(a[1][2]) == 2:
+                v2 = dict(e); v2['abort'] = ('uint_Sub' if a[1][1] == 'checked_sub' else 'uint_Add', a[1][2][0], a[1][2][1])
+                v2['key'] = '%s(%s)' % (v2['abort'][0], ', '.join(K(x) for x in a[1][2]))
+                yield aborts_table, v2
         if a and a[0] in ('uint_Sub', 'uint_Add') and len(a) == 3:
             kind = 'checked_sub' if a[0] == 'uint_Sub' else 'checked_add'
             for res in ('Err', 'None'):
@@ -121,6 +126,8 @@ def check_table(eng, prop, refs, variant, table, aborts_table, what):
         return None
     def folds(e):
         a = e.get('abort')
+        if a and a[0] == 'unwrap' and len(a) > 1 and isinstance(a[1], tuple) and a[1][0] == 'rcall' and a[1][1] == 'checked_sub' and len(a[1][2]) == 2:
+            a = ('uint_Sub', a[1][2][0], a[1][2][1])
         if a and a[0] in ('uint_Sub',) and len(a) == 3:
             if a[2] == ('int', 0): return True
             try:
